@@ -587,6 +587,17 @@ def catalogue(ctx, present):
     add('t&b', 'setop', lambda t: (lambda b: ('containers', [t & b, b]))(second(ctx)))
     add('t-b', 'setop', lambda t: (lambda b: ('containers', [t - b, b]))(second(ctx)))
     add('union(t,None)', 'setop', lambda t: ('containers', [getattr(mod, 'union')(t, None)]))
+    # plain iterables as operands: unsorted, with a key twice (fresh objects for every element)
+    def dups():
+        ps = [d.kpos[-1], d.kpos[0], d.kpos[-1], d.gaps[0], d.kpos[0], d.gaps[0]]
+        return [K_(p) for p in ps]
+    for fname in ('union', 'intersection', 'difference'):
+        fn_ = getattr(mod, fname)
+        add(fname + '(t,list-with-duplicates)', 'setop', lambda t, fn_=fn_: ('containers', [fn_(t, dups())]))
+        if fname != 'difference':
+            add(fname + '(list-with-duplicates,t)', 'setop', lambda t, fn_=fn_: ('containers', [fn_(dups(), t)]))
+    add('union(list,list)', 'setop', lambda t: ('containers', [mod.union(dups(), dups())]))
+    add('t|list-with-duplicates', 'setop', lambda t: ('containers', [t | dups()]))
     if F.has_weighted(ctx.fam):
         wu, wi = mod.weightedUnion, mod.weightedIntersection
         add('weightedUnion', 'setop', lambda t: (lambda b: ('containers', [wu(t, b)[1], b]))(second(ctx)))
